@@ -224,3 +224,181 @@ def o16_6(tier):
                 ctx.ensure(ctx.And(ctx.close(mat[0][ci], E[i][0]), ctx.close(mat[1][ci], E[i][1])), f"column {ci}: the direction of that interface at the junction")
         return h
     return [("four_fold,limit=3.0", mk(3.0, False)), ("four_fold,limit=1.0", mk(1.0, True))]
+
+
+@obligation("O16.3u", ["C16", "C10"], [FM + "get_solution_no_discarded"],
+            "re-alignment for ANY number of internal interfaces (mode b, loop cut at an inductive invariant): with one solver value per remaining interface, "
+            "position j of the result holds -1 if interface j is excluded and the value of rank rank(j) = number of remaining interfaces before j otherwise; "
+            "no index leaves its bounds", tier="P")
+def o16_3u(tier):
+    def native(ctx):
+        # the same contract on CPython for the (n, m) of a counter-model: random exclusion patterns with exactly n - m excluded interfaces
+        import random
+        import numpy as np
+        from forsys.fmatrix import ForceMatrix
+        from forsys.frames import Frame
+        n, m = ctx.int("n"), ctx.int("m")
+        ctx.assume(0 <= m < n and n <= 400, "pre")
+        rnd = random.Random(1000 * n + m)
+
+        class BE:
+            def __init__(self, ids): self.ids = ids
+            def get_vertices_ids(self): return self.ids
+        for _ in range(6):
+            excluded = set(rnd.sample(range(n), n - m))
+            deletes, edges = set(), []
+            for i in range(n):
+                ids = [3 * i, 3 * i + 1, 3 * i + 2]
+                edges.append(BE(ids))
+                if i in excluded:
+                    deletes.update((ids[0], ids[-1]))
+                else:
+                    deletes.update(rnd.choice(([], [ids[0]], [ids[-1]], [ids[1]])))
+            fm, fr = ForceMatrix.__new__(ForceMatrix), Frame.__new__(Frame)
+            fr.internal_big_edges, fm.frame, fm.deletes = edges, fr, deletes
+            xres = np.array([rnd.uniform(0.1, 2) for _ in range(m)], dtype=float)
+            res = fm.get_solution_no_discarded(xres)
+            ctx.ensure(len(res) == n, "one entry per internal interface")
+            rank = 0
+            for i in range(n):
+                want = -1 if i in excluded else xres[rank]
+                rank += i not in excluded
+                ctx.ensure(res[i] == want, "position p: -1 if excluded, else the solver value of its rank")
+
+    def h(ctx):
+        if ctx.mode != "sym":
+            return native(ctx)
+        import z3
+        from fvc import modeb
+        from fvc.lib import ModelFn
+        Int, Real, Bool = z3.IntSort(), z3.RealSort(), z3.BoolSort()
+        n, m = ctx.int("n"), ctx.int("m")
+        ctx.assume(ctx.And(n >= 0, m >= 0), "pre")
+        first, last = z3.Function("first_", Int, Int), z3.Function("last_", Int, Int)
+        flag = z3.Function("flag_", Int, Bool)
+        rank = z3.Function("rank_", Int, Int)
+        excl = lambda i: z3.And(flag(first(i)), flag(last(i)))
+        a, b, d = z3.Ints("a_ b_ d_")
+        # definition of rank (number of remaining interfaces before position i)
+        ctx.assume(rank(0) == 0, "def:rank")
+        ctx.assume(z3.ForAll([a], z3.Implies(a >= 0, rank(a + 1) == rank(a) + z3.If(excl(a), 0, 1)), patterns=[rank(a + 1)]), "def:rank")
+        # lemma (induction on d, each step discharged on explicit instances): rank is monotone
+        ctx.lemma(rank(a) <= rank(a + 0), "rank-monotone: base", premises=[])
+        ctx.lemma(rank(a) <= rank(a + d + 1), "rank-monotone: step",
+                  premises=[a >= 0, d >= 0, rank(a) <= rank(a + d), rank(a + d + 1) == rank(a + d) + z3.If(excl(a + d), 0, 1)])
+        ctx.assume(z3.ForAll([a, b], z3.Implies(z3.And(0 <= a, a <= b), rank(a) <= rank(b)), patterns=[z3.MultiPattern(rank(a), rank(b))]), "lemma(induction): rank monotone")
+        ctx.assume(m == rank(n), "pre: one solver value per remaining interface")
+        ctx.assume(ctx.Not(n == m), "pre:class (some interface is excluded; the no-exclusion shortcut returns its argument unchanged)")
+
+        class AbsPath:
+            def __init__(self, i):
+                self.i = i
+
+            def fvc_getitem(self, it, key):
+                return first(self.i) if key == 0 else last(self.i) if key == -1 else z3.Function("inner_", Int, Int, Int)(self.i, key)
+
+        class AbsBigEdge:
+            def __init__(self, i):
+                self.i = i
+
+            def fvc_getattr(self, it, name):
+                return ModelFn("get_vertices_ids", lambda it_: AbsPath(self.i))
+        internal = modeb.SymSeq(n, getter=lambda i: AbsBigEdge(i), name="internal")
+        xarr = z3.Array("xres_", Int, Real)
+        xres = modeb.SymSeq(m, array=xarr, name="xres")
+        F = cls(ctx, "forsys.frames", "Frame")
+        M = cls(ctx, "forsys.fmatrix", "ForceMatrix")
+        fm = ctx.alloc(M, frame=ctx.alloc(F, internal_big_edges=internal), deletes=modeb.AbsSet(lambda x: flag(x)))
+        j = z3.Int("j_")
+
+        def inv(look, k):
+            new = look("xres_new")
+            return z3.And(look("xres_i") == rank(k), k <= n,
+                          z3.ForAll([j], z3.Implies(z3.And(0 <= j, j < k), z3.Select(new.array, j) == z3.If(excl(j), z3.RealVal(-1), z3.Select(xarr, rank(j))))))
+        ctx.invariant("forsys.fmatrix:ForceMatrix.get_solution_no_discarded", 0, inv, modifies=["xres_new", "xres_i"])
+        res = ctx.callm(fm, "get_solution_no_discarded", xres)
+        ctx.ensure(isinstance(res, modeb.SymSeq) and ctx.eq(res.length, n), "one entry per internal interface")
+        p = ctx.int("p")
+        ctx.assume(ctx.And(p >= 0, p < n), "arbitrary position")
+        ctx.ensure(res.at(p) == z3.If(excl(p), z3.RealVal(-1), z3.Select(xarr, rank(p))), "position p: -1 if excluded, else the solver value of its rank")
+    return [("any-length", h)]
+
+
+@obligation("O16.4u", ["C16", "C10"], [FM + "get_new_initial_condition"],
+            "initial condition for ANY number of internal interfaces (mode b, loop cut at an inductive invariant): exactly the positions of excluded interfaces are "
+            "overwritten by the mark (0 / -1) and remembered with their previous value; every other entry (the multiplier behind the tensions included) is unchanged; "
+            "no index leaves its bounds", tier="P")
+def o16_4u(tier):
+    def native(ctx, what):
+        import random
+        from forsys.fmatrix import ForceMatrix
+        from forsys.frames import Frame
+        n, L = ctx.int("n"), ctx.int("L")
+        ctx.assume(0 <= n <= L <= 400, "pre")
+        rnd = random.Random(1000 * n + L)
+
+        class BE:
+            def __init__(self, ids): self.ids = ids
+            def get_vertices_ids(self): return self.ids
+        for _ in range(6):
+            excluded = set(i for i in range(n) if rnd.random() < 0.4)
+            deletes, edges = set(), []
+            for i in range(n):
+                ids = [3 * i, 3 * i + 1, 3 * i + 2]
+                edges.append(BE(ids))
+                deletes.update((ids[0], ids[-1]) if i in excluded else rnd.choice(([], [ids[0]], [ids[-1]], [ids[1]])))
+            fm, fr = ForceMatrix.__new__(ForceMatrix), Frame.__new__(Frame)
+            fr.internal_big_edges, fm.frame, fm.deletes = edges, fr, deletes
+            old = [rnd.uniform(0.1, 2) for _ in range(L)]
+            res, removed = fm.get_new_initial_condition(list(old), what=what)
+            mark = 0 if what == "zero" else -1
+            ctx.ensure(len(res) == L, "length unchanged")
+            ctx.ensure(all(res[p] == (mark if p in excluded else old[p]) for p in range(L)), "position p: the mark if excluded, else unchanged")
+            ctx.ensure(removed == {p: old[p] for p in excluded}, "remembered: exactly the excluded positions")
+
+    def mk(what):
+        def h(ctx):
+            if ctx.mode != "sym":
+                return native(ctx, what)
+            import z3
+            from fvc import modeb
+            from fvc.lib import ModelFn
+            Int, Real, Bool = z3.IntSort(), z3.RealSort(), z3.BoolSort()
+            n, L = ctx.int("n"), ctx.int("L")
+            ctx.assume(ctx.And(n >= 0, L >= n), "pre: one initial value per internal interface (and possibly the multiplier behind them)")
+            first, last = z3.Function("first_", Int, Int), z3.Function("last_", Int, Int)
+            flag = z3.Function("flag_", Int, Bool)
+            excl = lambda i: z3.And(flag(first(i)), flag(last(i)))
+            mark = z3.RealVal(0 if what == "zero" else -1)
+
+            class AbsPath:
+                def __init__(self, i): self.i = i
+                def fvc_getitem(self, it, key): return first(self.i) if key == 0 else last(self.i) if key == -1 else z3.Function("inner_", Int, Int, Int)(self.i, key)
+
+            class AbsBigEdge:
+                def __init__(self, i): self.i = i
+                def fvc_getattr(self, it, name): return ModelFn("get_vertices_ids", lambda it_: AbsPath(self.i))
+            internal = modeb.SymSeq(n, getter=lambda i: AbsBigEdge(i), name="internal")
+            old = z3.Array("x0_", Int, Real)
+            x0 = modeb.SymSeq(L, array=old, name="x0")
+            F = cls(ctx, "forsys.frames", "Frame")
+            M = cls(ctx, "forsys.fmatrix", "ForceMatrix")
+            fm = ctx.alloc(M, frame=ctx.alloc(F, internal_big_edges=internal), deletes=modeb.AbsSet(lambda x: flag(x)))
+            j = z3.Int("j_")
+
+            def inv(look, k):
+                cur, rem = look("x0"), look("removed_indices")
+                return z3.And(k <= n,
+                              z3.ForAll([j], z3.Select(cur.array, j) == z3.If(z3.And(0 <= j, j < k, excl(j)), mark, z3.Select(old, j))),
+                              z3.ForAll([j], rem.has(j) == z3.And(0 <= j, j < k, excl(j))),
+                              z3.ForAll([j], z3.Implies(rem.has(j), rem.at(j) == z3.Select(old, j))))
+            ctx.invariant("forsys.fmatrix:ForceMatrix.get_new_initial_condition", 0, inv, modifies=["x0", "removed_indices", "both_count"])
+            res, removed = ctx.list_of(ctx.callm(fm, "get_new_initial_condition", x0, what=what))
+            ctx.ensure(res is x0 and ctx.eq(res.length, L), "the list itself, length unchanged")
+            p = ctx.int("p")
+            ctx.ensure(ctx.Implies(ctx.And(p >= 0, p < L), res.at(p) == z3.If(z3.And(p < n, excl(p)), mark, z3.Select(old, p))),
+                       "position p: the mark if it is an excluded interface, else unchanged (entries behind the tensions included)")
+            ctx.ensure(removed.has(p) == z3.And(0 <= p, p < n, excl(p)), "remembered: exactly the excluded positions")
+            ctx.ensure(ctx.Implies(removed.has(p), removed.at(p) == z3.Select(old, p)), "remembered with the value they had")
+        return h
+    return [("any-length,what=zero", mk("zero")), ("any-length,what=other", mk("other"))]
